@@ -127,6 +127,60 @@ func genBus(c *ctx) *leanFile {
 	}
 	l.boolean("runUnsubscribesOnClose", okRun, true, "")
 
+	// run: `if s.previous != nil { <-s.previous }` before the loop; the deferred function closes s.done after Unsubscribe
+	waits, signals := false, false
+	if fd := findFunc(fn, "asyncSubscriberNats", "run"); fd != nil && fd.Body != nil {
+		for i, st := range fd.Body.List {
+			if is, ok := st.(*ast.IfStmt); ok && i+1 < len(fd.Body.List) {
+				if _, isFor := fd.Body.List[i+1].(*ast.ForStmt); isFor && len(is.Body.List) == 1 {
+					if es, ok := is.Body.List[0].(*ast.ExprStmt); ok {
+						if ue, ok := es.X.(*ast.UnaryExpr); ok && ue.Op == token.ARROW && isSel(ue.X, "s", "previous") {
+							waits = true
+						}
+					}
+				}
+			}
+			if ds, ok := st.(*ast.DeferStmt); ok {
+				if fl, ok := ds.Call.Fun.(*ast.FuncLit); ok {
+					seenUnsub := false
+					for _, b := range fl.Body.List {
+						if strings.Contains(exprString(c.fset, b), "Unsubscribe") {
+							seenUnsub = true
+						}
+						if es, ok := b.(*ast.ExprStmt); ok {
+							if call, ok := es.X.(*ast.CallExpr); ok && isIdent(call.Fun, "close") && len(call.Args) == 1 && isSel(call.Args[0], "s", "done") && seenUnsub {
+								signals = true
+							}
+						}
+					}
+				}
+			}
+		}
+	}
+	l.boolean("runWaitsForPrevious", waits, true, "")
+	l.boolean("runSignalsDone", signals, true, "")
+
+	// closeSubscriber: e.closing[key] = done before sub.close()
+	remembers := false
+	if fd := findFunc(fn, "asyncEventsNats", "closeSubscriber"); fd != nil && fd.Body != nil {
+		stored := false
+		for _, st := range fd.Body.List {
+			if as, ok := st.(*ast.AssignStmt); ok && len(as.Lhs) == 1 {
+				if ie, ok := as.Lhs[0].(*ast.IndexExpr); ok && isSel(ie.X, "e", "closing") {
+					stored = true
+				}
+			}
+			if es, ok := st.(*ast.ExprStmt); ok {
+				if call, ok := es.X.(*ast.CallExpr); ok {
+					if se, ok := call.Fun.(*ast.SelectorExpr); ok && se.Sel.Name == "close" && isIdent(se.X, "sub") && stored {
+						remembers = true
+					}
+				}
+			}
+		}
+	}
+	l.boolean("closeRemembersSubscriber", remembers, true, "")
+
 	// ---- LoopbackNatsClient.processMessage: snapshot of channels under c.mu, unlock, non-blocking sends
 	nonBlocking, okPM, progPM := false, false, ""
 	if fd := findFunc(fl, "LoopbackNatsClient", "processMessage"); fd != nil && fd.Body != nil {
@@ -406,18 +460,24 @@ func busRegisterShape(fd *ast.FuncDecl, mapName string) bool {
 			}
 		}
 	}
-	usesMap := false
+	usesMap, passesPrevious := false, false
 	ast.Inspect(fd.Body, func(n ast.Node) bool {
 		if se, ok := n.(*ast.SelectorExpr); ok && isIdent(se.X, "e") && se.Sel.Name == mapName {
 			usesMap = true
 		}
+		// new…SubscriberNats(key, e.client, e.closing[key])
+		if call, ok := n.(*ast.CallExpr); ok && len(call.Args) == 3 {
+			if ie, ok := call.Args[2].(*ast.IndexExpr); ok && isSel(ie.X, "e", "closing") && isIdent(ie.Index, "key") {
+				passesPrevious = true
+			}
+		}
 		return true
 	})
-	return addAfter && usesMap
+	return addAfter && usesMap && passesPrevious
 }
 
 // busUnregisterShape: e.mu.Lock(); defer e.mu.Unlock(); sub, found := e.<map>[key]; if !found { return };
-// if !sub.removeListener(listener) { delete(e.<map>, key); sub.close() }
+// if !sub.removeListener(listener) { delete(e.<map>, key); e.closeSubscriber(sub.asyncSubscriberNats) }
 func busUnregisterShape(fd *ast.FuncDecl, mapName string) bool {
 	p := strings.TrimLeft(busProgram(fd.Body.List, "e", ""), ".")
 	if p != "LDC?(r)?(X.)" {
@@ -444,7 +504,7 @@ func busUnregisterShape(fd *ast.FuncDecl, mapName string) bool {
 		closes := false
 		if es, isE := is.Body.List[1].(*ast.ExprStmt); isE {
 			if c2, isC := es.X.(*ast.CallExpr); isC {
-				if s2, isS := c2.Fun.(*ast.SelectorExpr); isS && s2.Sel.Name == "close" && isIdent(s2.X, "sub") {
+				if s2, isS := c2.Fun.(*ast.SelectorExpr); isS && s2.Sel.Name == "closeSubscriber" && isIdent(s2.X, "e") && len(c2.Args) == 1 {
 					closes = true
 				}
 			}
